@@ -130,7 +130,7 @@ PROPS = {
         ],
         "relevant": c01_relevant,
         "lean_modules": ["Pumpkin.Model.Propagation", "Pumpkin.Model.PropagationChecks"],
-        "level_text": "Proof: fixed_fixpoint_is_solution — over the propagator models of Model/Propagation.lean, a state in which every variable is fixed and whose propagation fixpoint reports no conflict satisfies the WHOLE model (pass_checks: at a full assignment every modelled propagator decides its constraint — LinearLeq, LinearNe, IntAbs, Maximum, IntTimes, Division, Element, clauses, reified wrapper; compile_bwd / compile_fwd: the decomposition into propagators has exactly the constraint's meaning), for every model of the modelled kinds; solution_is_fixed_fixpoint is the converse. Tied exactly by the `fix` records (the state at every decision point of real solves, the last one of a satisfiable solve being the solution state, equals the model's fixpoint). Lean theorems state that an accepted solution lies in the declared domains and satisfies every constraint under the Spec semantics (views, half/full reification), and that acceptance = membership in the verified oracle `solutions`. Tie to code: every solution handed out by satisfy / iterator / assumptions / optimise (result and callbacks) of the real solver on generated models is judged by that verified acceptor.",
+        "level_text": "Proof: fixed_fixpoint_is_solution — over the propagator models of Model/Propagation.lean, a state in which every variable is fixed and whose propagation fixpoint reports no conflict satisfies the WHOLE model (pass_checks: at a full assignment every modelled propagator decides its constraint — LinearLeq, LinearNe, IntAbs, Maximum, IntTimes, Division, Element, clauses, time-table cumulative, reified wrapper; compile_bwd / compile_fwd: the decomposition into propagators has exactly the constraint's meaning), for every model of the modelled kinds; solution_is_fixed_fixpoint is the converse. Tied exactly by the `fix` records (the state at every decision point of real solves, the last one of a satisfiable solve being the solution state, equals the model's fixpoint). Lean theorems state that an accepted solution lies in the declared domains and satisfies every constraint under the Spec semantics (views, half/full reification), and that acceptance = membership in the verified oracle `solutions`. Tie to code: every solution handed out by satisfy / iterator / assumptions / optimise (result and callbacks) of the real solver on generated models is judged by that verified acceptor.",
         "level_note": LEVEL_NOTE_COMMON + "Not modelled line by line: search loop, 2-watch scheme, time-table bookkeeping (covered only through the answers they produce).",
         "assumptions": [
             "solutions are judged by Model.sat of lean/Pumpkin/Spec/Basic.lean (the documented meaning of each constraint)",
@@ -284,7 +284,7 @@ PROPS = {
         ],
         "relevant": panic_or({"infer", "minfer", "nogood", "bad", "implicit", "fix"}, ["tap", "fix"]),
         "lean_modules": ["Pumpkin.Model.ImplicitReason", "Pumpkin.Model.Propagation", "Pumpkin.Model.PropagationSound", "Pumpkin.Model.PropagationArith", "Pumpkin.Model.PropagationCompile", "Pumpkin.Model.Cumulative", "Pumpkin.Model.CumulativeSound"],
-        "level_text": "Proof: Model/Propagation.lean models the propagators themselves as functions on domains, statement by statement after the Rust sources (LinearLeq, LinearNe, IntAbs, Maximum, IntTimes incl. propagate_signs, Division incl. sign normalisation / propagate_upper_bounds / propagate_positive_domains, Element (four phases), the unit rule of the nogood propagator after add_permanent_nogood's semantic minimisation, the reified wrapper with detect_inconsistency and the initialise_at_root conflict), the decomposition of constraints into propagators (equals, not_equals, all_different, minimum, negation, implied_by, reify) and the fixpoint; pass_ok / propagation_never_prunes / propagation_conflict_sound / fixpoint_never_prunes prove for ALL domain states, views and constants that a pass (and the fixpoint of any set of propagators) never removes a value used by a solution of its constraint within the current domains and reports a conflict only if there is none (the division and multiplication rules included: truncating division, sign cases, ceil/floor bounds). Tied exactly: a recording brancher snapshots the domains of all variables at every decision point of real solves (`fix` records); root state = model of sequential posting, state after each decision = fixpoint of (previous state + decision), conflicts = model conflicts, exactly, until the first learned nogood (afterwards the real state must be a subset); independently the verified oracle checks that no value of a solution within the start domains is ever pruned. A mismatch that is not a pruned solution is reported as a broken correspondence (no-failing-input-found unless the run's oracle-judged records find one). implicit_reason_entails / implicit_reason_progress — Model/ImplicitReason.lean mirrors the nine arms (and assertion guards) of get_propagation_reason for predicates that are not literally on the trail; every reason it produces entails the explained predicate for ALL integer values and never contains it; tied exactly: the hook records the trail predicate next to each implicit reason and the model must produce the identical list. checkInference_iff — the acceptor for an explanation (premises -> conclusion, or -> false) is equivalent to semantic entailment from the single tagged constraint within the declared domains, hence sound AND complete (never rejects a valid explanation); accepted_propagation / accepted_conflict / never_prunes_solution / accepted_model_inference. Tie to code (hook: explanation tap): every propagation (reason computed immediately, lazy reasons included), every reported conflict, every reason handed to conflict analysis later (explicit, lazily recomputed, implicit) and every learned nogood during real searches is recorded with the propagator's tag and judged; 'all reason predicates hold in the state in which the reason is given' is evaluated inside the hook.",
+        "level_text": "Proof: Model/Propagation.lean models the propagators themselves as functions on domains, statement by statement after the Rust sources (LinearLeq, LinearNe, IntAbs, Maximum, IntTimes incl. propagate_signs, Division incl. sign normalisation / propagate_upper_bounds / propagate_positive_domains, Element (four phases), cumulative (time-table filtering at its fixpoint: Model/Cumulative.lean, posted with the default options; half-reified incl. the oversize-task decision at posting), the unit rule of the nogood propagator after add_permanent_nogood's semantic minimisation, the reified wrapper with detect_inconsistency and the initialise_at_root conflict), the decomposition of constraints into propagators (equals, not_equals, all_different, minimum, negation, implied_by, reify) and the fixpoint; pass_ok / propagation_never_prunes / propagation_conflict_sound / fixpoint_never_prunes prove for ALL domain states, views and constants that a pass (and the fixpoint of any set of propagators) never removes a value used by a solution of its constraint within the current domains and reports a conflict only if there is none (the division and multiplication rules included: truncating division, sign cases, ceil/floor bounds). Tied exactly: a recording brancher snapshots the domains of all variables at every decision point of real solves (`fix` records); root state = model of sequential posting, state after each decision = fixpoint of (previous state + decision), conflicts = model conflicts, exactly, until the first learned nogood (afterwards the real state must be a subset); independently the verified oracle checks that no value of a solution within the start domains is ever pruned. A mismatch that is not a pruned solution is reported as a broken correspondence (no-failing-input-found unless the run's oracle-judged records find one). implicit_reason_entails / implicit_reason_progress — Model/ImplicitReason.lean mirrors the nine arms (and assertion guards) of get_propagation_reason for predicates that are not literally on the trail; every reason it produces entails the explained predicate for ALL integer values and never contains it; tied exactly: the hook records the trail predicate next to each implicit reason and the model must produce the identical list. checkInference_iff — the acceptor for an explanation (premises -> conclusion, or -> false) is equivalent to semantic entailment from the single tagged constraint within the declared domains, hence sound AND complete (never rejects a valid explanation); accepted_propagation / accepted_conflict / never_prunes_solution / accepted_model_inference. Tie to code (hook: explanation tap): every propagation (reason computed immediately, lazy reasons included), every reported conflict, every reason handed to conflict analysis later (explicit, lazily recomputed, implicit) and every learned nogood during real searches is recorded with the propagator's tag and judged; 'all reason predicates hold in the state in which the reason is given' is evaluated inside the hook.",
         "level_note": LEVEL_NOTE_COMMON + "Enumeration limits trace acceptance to small domains; nogood-propagator reasons are judged against the whole model.",
     },
     "C19": {
